@@ -4,6 +4,8 @@ Monitors: M4 shadow pool (every live object is bitwise-compared with its snapsho
 declared in-place target of the step may differ), M4 argument contracts on every monitored routine, M5 LAPACK
 alias observer (overwritten buffer shared with another registered live object, reported at the moment it happens),
 M3 invariant on every returned / live object (also through icontract.invariant on the class)."""
+import os
+
 import numpy as np
 
 from .. import gen, probe, core
@@ -100,7 +102,11 @@ def isvec(t):
 
 
 def is_zero(t):
-    """the exactly-zero tensor (e.g. a - a): relative thresholds are 0/0 on it -> inadmissible for truncating calls"""
+    """the exactly-zero tensor (e.g. a - a): relative thresholds are 0/0 on it -> inadmissible for truncating calls.  (The crash of the plain
+    sweeps on zero cores was repaired in the library - 8e8d10b, driven in C04 - but svd / pinv of a zero tensor remain undefined (1 / 0), so
+    (numerically) zero tensors stay out of the truncating consumers of the histories; VERIF_C06_ADMIT_ZERO=1 lets them in for experiments)"""
+    if os.environ.get('VERIF_C06_ADMIT_ZERO'):
+        return False
     with probe.oracle():
         try:
             from ..dense import dense_b
